@@ -2,7 +2,7 @@
 //! shared SEQ alphabet used by C05 (and the Miri/ASan shards).
 //!
 //! Exhaustive enumeration of all operation sequences up to a length bound over
-//! a 12-letter alphabet on a topic with two subscriptions, plus random longer
+//! a 13-letter alphabet on a topic with two subscriptions, plus random longer
 //! SEQ histories; every step is checked against the exact reference model,
 //! including the stats of *every* subscription ("touches nothing else").
 
@@ -16,8 +16,8 @@ use crate::seq::Seq;
 use crate::world::*;
 use std::time::Duration;
 
-pub const LETTERS: [&str; 12] = [
-    "publish", "pull1", "pullall", "ack_oldest", "ack_newest", "ack_stale", "ack_unknown", "ack_again", "nack_oldest", "modify_oldest_30", "adv_before", "adv_past",
+pub const LETTERS: [&str; 13] = [
+    "publish", "pull1", "pullall", "ack_oldest", "ack_newest", "ack_stale", "ack_unknown", "ack_again", "nack_oldest", "modify_oldest_30", "adv_before", "adv_past", "ack_dead_then_live",
 ];
 
 fn enum_len(p: &EpParams) -> u32 {
@@ -137,6 +137,19 @@ pub async fn apply(seq: &mut Seq, c: &mut Ctx, letter: &str, sub: &str) {
                     c.odd_acks += 1;
                 }
             }
+        }
+        "ack_dead_then_live" => {
+            // one request: a dead ID (stale, or unknown when nothing is stale yet) followed by every live ID
+            let ls = leases_sorted(seq, sub);
+            let live: Vec<String> = ls.iter().map(|x| x.0.clone()).collect();
+            let dead = c.past_ids.iter().rev().find(|i| !live.contains(i)).cloned().unwrap_or_else(|| "424246".to_string());
+            let now = seq.now();
+            let certain = ls.iter().filter(|(_, l)| now < l.lo).count() as u64;
+            let mut ids = vec![dead];
+            ids.extend(live);
+            seq.ack(sub, &ids).await;
+            c.effective_acks += certain;
+            c.odd_acks += 1;
         }
         "ack_stale" => {
             // an ID that was issued on this subscription and is no longer a lease
@@ -273,7 +286,7 @@ async fn episode(p: &EpParams) -> EpReport {
     } else {
         let n = rng.range(40, 80);
         let ext = [
-            "publish", "publish3", "pull1", "pullall", "ack_oldest", "ack_newest", "ack_stale", "ack_unknown", "ack_again", "nack_oldest", "modify_oldest_30", "modify_newest_3", "modify_oldest_700",
+            "ack_dead_then_live", "publish", "publish3", "pull1", "pullall", "ack_oldest", "ack_newest", "ack_stale", "ack_unknown", "ack_again", "nack_oldest", "modify_oldest_30", "modify_newest_3", "modify_oldest_700",
             "adv_before", "adv_past", "pull1", "ack_oldest", "publish",
         ];
         let mut ls = Vec::new();
